@@ -10,11 +10,13 @@ package lay
 import (
 	"context"
 	"fmt"
+	"math"
 	"os"
 	"sort"
 	"strconv"
 	"strings"
 	"sync"
+	"time"
 
 	"d2v/harness/hl"
 
@@ -367,6 +369,11 @@ func Geometry(g *d2graph.Graph, pre map[string][2]float64) M {
 		m["labelH"] = e.LabelDimensions.Height
 		m["labelW"] = e.LabelDimensions.Width
 		m["route"] = pts(e.Route)
+		// non-rectangular outlines: is the end within 2 px of the shape's real perimeter (lib/shape + lib/geo)?
+		if len(e.Route) >= 2 && !isLifeline(e) {
+			m["srcPerim"] = nearPerimeter(e.Src, e.Route[0])
+			m["dstPerim"] = nearPerimeter(e.Dst, e.Route[len(e.Route)-1])
+		}
 		m["line"] = earliestEdgeLine(e)
 		edges = append(edges, m)
 	}
@@ -400,8 +407,10 @@ type Job struct {
 }
 
 // RunAll runs the jobs on n workers (each layout call builds its own goja runtime) and returns results in
-// job order.
-func RunAll(jobs []Job, n int) []*Result {
+// job order.  budget > 0 bounds the wall time: jobs are handed out in order and no new job is started after the
+// deadline (results of jobs never started are nil, and the prefix that did run is still a seeded, reproducible
+// mix because the generators interleave their profiles); at least min jobs are always run.
+func RunAll(jobs []Job, n int, budget time.Duration, min int) []*Result {
 	res := make([]*Result, len(jobs))
 	var wg sync.WaitGroup
 	ch := make(chan int)
@@ -414,12 +423,30 @@ func RunAll(jobs []Job, n int) []*Result {
 			}
 		}()
 	}
+	deadline := time.Now().Add(budget)
 	for i := range jobs {
+		if budget > 0 && i >= min && time.Now().After(deadline) {
+			break
+		}
 		ch <- i
 	}
 	close(ch)
 	wg.Wait()
 	return res
+}
+
+// QuickBudget is the wall-time bound of the layout stream (45 s in the quick tier, 15 min in the thorough tier) (a nested diagram costs one engine run
+// per special container: 0.1 s dagre / 0.6 s ELK each on an idle core, several times that on a loaded machine).
+func QuickBudget(quick bool) time.Duration {
+	if s := os.Getenv("D2V_LAY_BUDGET_S"); s != "" {
+		if n, err := strconv.Atoi(s); err == nil {
+			return time.Duration(n) * time.Second
+		}
+	}
+	if quick {
+		return 45 * time.Second
+	}
+	return 15 * time.Minute
 }
 
 // DevN lets a developer shrink the number of generated programs (D2V_LAY_N) while working on a check; unset in
@@ -479,4 +506,29 @@ func earliestEdgeLine(e *d2graph.Edge) int {
 		}
 	}
 	return min
+}
+
+// nearPerimeter: "yes" when one of the short probes through p (8 directions, half length 2 px) crosses an element of
+// the shape's perimeter, "no" when none does, "rect" when the shape has no perimeter of its own (its outline is the box).
+func nearPerimeter(o *d2graph.Object, p *geo.Point) string {
+	if o == nil || o.Box == nil || o.TopLeft == nil || p == nil {
+		return "rect"
+	}
+	per := o.ToShape().Perimeter()
+	if len(per) == 0 {
+		return "rect"
+	}
+	const r = 2.0
+	dirs := [][2]float64{{1, 0}, {0, 1}, {1, 1}, {1, -1}, {2, 1}, {1, 2}, {2, -1}, {1, -2}}
+	for _, d := range dirs {
+		n := math.Hypot(d[0], d[1])
+		dx, dy := d[0]/n*r, d[1]/n*r
+		seg := geo.Segment{Start: geo.NewPoint(p.X-dx, p.Y-dy), End: geo.NewPoint(p.X+dx, p.Y+dy)}
+		for _, el := range per {
+			if len(el.Intersections(seg)) > 0 {
+				return "yes"
+			}
+		}
+	}
+	return "no"
 }
